@@ -381,8 +381,23 @@ func (g *gen) callable(f *fn) bool {
 
 // callText renders callee(args) and pays for it.
 func (g *gen) callText(f *fn, callee string) (string, bool) {
+	if f.rangeRet && g.avoided("return:in-range-loop") {
+		// known-bad shape (optimizer level 2): a callee that returns from inside a range loop, called from
+		// inside a range loop of the caller. Everywhere else such callees are called freely.
+		for _, c := range g.fc.ctl {
+			if c.kind == cxLoop && c.isRange {
+				return "", false
+			}
+		}
+		if g.rangeDepth > 0 {
+			return "", false
+		}
+	}
 	if !g.spend(f.cost) {
 		return "", false
+	}
+	if f.rangeRet {
+		g.fc.rangeRet = true
 	}
 	if f.panics && g.fc != nil {
 		g.fc.panics = true
